@@ -145,6 +145,18 @@ def run_case(case):
         for d in duals:
             for _ in range(rnd.randint(0, 3)):
                 toggle_dual(d)
+        # one callable that the application registers on a zone AND on the air-conditioner
+        # owning it (it tells the two apart by the identifier it is called with)
+        shared = []
+        for ac in at.air_conditioners:
+            zs = list(ac.zones)
+            if zs and rnd.random() < 0.6:
+                z = rnd.choice(zs)
+                sh = {"sub": H.Sub(log, f"shared:z{z.zone_id}:ac{ac.ac_id}",
+                                   hashv=rnd.getrandbits(20)), "zone": z.zone_id, "ac": ac.ac_id}
+                z.subscribe(sh["sub"])
+                ac.subscribe(sh["sub"])
+                shared.append(sh)
         for s in subs:
             if s.get("early"):
                 continue
@@ -292,6 +304,23 @@ def run_case(case):
                                  "detail": info})
                 elif must:
                     obs["must_verdicts"] = obs.get("must_verdicts", 0) + 1
+            for sh in shared:
+                got = [a[0] if a else None for a in calls.get(sh["sub"].name, [])]
+                zmust = any(ch[1] == "zone" and ch[2] == sh["zone"] and ch[3] is True
+                            for ch in changes)
+                if zmust:
+                    obs["same_callable_on_zone_and_owning_ac"] = obs.get(
+                        "same_callable_on_zone_and_owning_ac", 0) + 1
+                    miss = [w_ for w_ in (sh["zone"], sh["ac"]) if w_ not in got]
+                    # (zone id and AC id may be the same number: then two calls are due)
+                    if sh["zone"] == sh["ac"] and got.count(sh["zone"]) < 2:
+                        miss = [sh["zone"]]
+                    if miss:
+                        viol.append({"mechanism": "subscriber-not-called-on-change:"
+                                     "zone_and_owning_ac",
+                                     "detail": {"subscriber": sh["sub"].name, "got_ids": got,
+                                                "missing_ids": miss, "frame": raw,
+                                                "step": step}})
             for s in subs:
                 # what was done from inside callbacks takes effect in the order it happened
                 for what in s.pop("pending", ()):
